@@ -123,16 +123,20 @@ func (cx *Connection) Write(p []byte) (n int, err error) {
 }
 
 // Wrap wraps conn in a new Connection based on cx (reusing
-// cx's existing buffer and context). This is useful after
+// cx's existing context). This is useful after
 // a connection is wrapped by a package that does not support
 // our Connection type (for example, `tls.Server()`).
+//
+// conn is expected to read through cx, so any prefetched bytes
+// that cx still holds reach the new Connection that way, in order.
+// The new Connection therefore starts with an empty buffer of its
+// own: sharing cx's buffer would replay those bytes a second time,
+// ahead of what conn has already read from cx.
 func (cx *Connection) Wrap(conn net.Conn) *Connection {
 	return &Connection{
 		Conn:         conn,
 		Context:      cx.Context,
 		Logger:       cx.Logger,
-		buf:          cx.buf,
-		offset:       cx.offset,
 		matching:     cx.matching,
 		bytesRead:    cx.bytesRead,
 		bytesWritten: cx.bytesWritten,
